@@ -471,7 +471,9 @@ def is_coplanar(*args: PointTensor | LineTensor, tol: float = EQ_TOL_ABS) -> npt
         return result
     covariant = args[0].tensor_shape[1] > 0
     e = LeviCivitaTensor(n, covariant=covariant)
-    diagram = TensorDiagram(*[(e, a) if covariant else (a, e) for a in args[: n - 1]])
+    # tensor diagrams identify nodes by identity: an object that is passed more than once is copied
+    first = [a.copy() if any(a is b for b in args[:i]) else a for i, a in enumerate(args[: n - 1])]
+    diagram = TensorDiagram(*[(e, a) if covariant else (a, e) for a in first])
     tensor = diagram.calculate()
     for t in args[n:]:
         x = t * tensor if covariant else tensor * t
